@@ -12,16 +12,62 @@ ASSUMPTIONS = ["values and thresholds on the dyadic grid (floats == rationals)",
                "series length >= 1 for C09 (the empty series is covered under C01)"]
 
 
+def far_single_cases(tier, rng):
+    """series of single-precision numbers near 2^24 (spacing 2 above it, 1 below): every value is a float32, but the
+    sum, midpoint or difference of two neighbours need not be - the spike measure is defined on the values given"""
+    from fractions import Fraction as F
+    import core
+    out = []
+    for _ in range(120 if tier == "quick" else 1200):
+        n = rng.randint(3, 7)
+        off = 2 ** 24
+        xs = [F(off + rng.choice([0, 2, 4, 6, 10, -1, -3])) for _ in range(n)]
+        st = F(rng.choice([1, 2, 3])) / rng.choice([1, 2])
+        out.append({"xs": fns.frs(xs), "method": rng.choice(["average", "differential"]),
+                    "st": core.fr(st), "ft": core.fr(st + F(rng.choice([1, 2, 4])) / 2)})
+    return out
+
+
+def far_single_block(ad, cases):
+    """the flags of the float64 call (compared with the model by the run) are also those of the float32 call"""
+    import core
+    import crosscut as cc
+    fails, n_eval = [], 0
+    for c in cases:
+        base, _ = ad.impl(c)
+        tr, applied = cc.carrier_transform("float32", None, None)
+        core.KW_TRANSFORM = tr
+        try:
+            got, _ = ad.impl(c)
+        finally:
+            core.KW_TRANSFORM = None
+        if not applied["n"]:
+            continue
+        n_eval += 1
+        if got != base:
+            fails.append({"kind": "predicate", "function": ad.name, "case": c, "impl": base, "impl_carrier": got,
+                          "carrier": {"data": "float32"},
+                          "clause": "single-precision numbers near 2^24: flags differ when the series is given as a "
+                                    "float32 array (the spike measure must be computed on the values given, in double "
+                                    "precision)"})
+    return {"evaluations": n_eval, "distinct_nontrivial": n_eval, "failures": fails, "errors": [], "samples": [],
+            "distribution": {"float32_series_near_2^24": n_eval}}
+
+
 def run(ctx):
     rng, tier = ctx["rng"], ctx["tier"]
     import crosscut as cc
     cases = fns.gen_spike(tier, rng)
     r = adapters.run_adapter(fns.Spike(), cases, rng)
+    blocks = [r, cc.layout_block(fns.Spike(), cases, tier, rng), cc.reuse_block(fns.Spike(), cases, tier, rng),
+              cc.carrier_block(fns.Spike(), cases, tier, rng), cc.fine_block(fns.Spike(), cases, tier, rng)]
+    far = far_single_cases(tier, rng)      # after the other blocks: their random streams stay as they were
+    blocks += [adapters.run_adapter(fns.Spike(), far, rng), far_single_block(fns.Spike(), far)]
     return adapters.merge(
-        [r, cc.layout_block(fns.Spike(), cases, tier, rng), cc.reuse_block(fns.Spike(), cases, tier, rng),
-         cc.carrier_block(fns.Spike(), cases, tier, rng), cc.fine_block(fns.Spike(), cases, tier, rng)],
+        blocks,
         rule="all series of length<=3 (thorough 4) over {missing,0,1,2,5/2,4} x both methods x thresholds "
-             "{None,0,1,2}^2 (incl. fail<suspect, d exactly on a threshold); random series length 4..9; bad method names. "
+             "{None,0,1,2}^2 (incl. fail<suspect, d exactly on a threshold); random series length 4..9; bad method names; "
+             "single-precision series near 2^24 as float64 (vs model) and as float32 arrays (vs the float64 call). "
              "non-trivial = >=2 distinct flags or raises",
         exhaustive=False,
     )
